@@ -2,7 +2,8 @@
    Statements + `exact` + Print Assumptions only.  The digest function is universally quantified
    (D, deqb, dempty, digest) with the two facts spok relies on: equality of digests is decidable and a
    digest is never the empty string. *)
-From Spok Require Import Base RunCache RunCacheProofs RunCacheInst.
+From Spok Require Import Base Graph GraphProofs RunCache RunCacheProofs RunCacheInst App AppProofs.
+From Coq Require Import Permutation.
 
 Section C01.
 Variable D : Type.
@@ -39,6 +40,24 @@ Print Assumptions C01_inputs.
 
 (* non-vacuity, on the executable instance: a("f0") b("f1"); run a b; edit f0; run a b; revert f0; run a
    => a is NOT skipped (the defect repaired in /repo), and running a again IS skipped. *)
+(* the same at the command line, with selection (C03), the cache protocol and reporting composed: every invocation keeps the cache
+   invariant, and a task that `spok [flags] [tasks]` reports as skipped - whatever the flags, whether it was named, pulled in as
+   a dependency, the default task or the task clean of --clean - has in the state the invocation leaves exactly the inputs of its
+   last successful completion.  (pick is the map iteration order inside the topological sort; the digest here is the injective
+   one: "up to SHA-256 collisions", C04.) *)
+Theorem C01_invocations_keep_invariant : forall pick defs vars s f req s' ob,
+  Inv_i s -> invoke pick defs vars s f req = (s', ob) -> Inv_i s'.
+Proof. exact invoke_keeps_invariant. Qed.
+Print Assumptions C01_invocations_keep_invariant.
+
+Theorem C01_invocation : forall pick defs vars s f req s' ob rs r,
+  (forall k l, Permutation (pick k l) l) -> Inv_i s ->
+  invoke pick defs vars s f req = (s', ob) -> ob_stdout ob = SDJson rs -> In r rs -> tr_skipped r = true ->
+  exists d F, find_def defs (tr_name r) = Some d /\
+              inputs_of (files DI s') (to_task d) = Some F /\ last_ok DI s' (tr_name r) = Some F.
+Proof. exact invocation_skip_sound. Qed.
+Print Assumptions C01_invocation.
+
 Definition ta := {| tname := 0; lits := [0]; globs := [] |}.
 Definition tb := {| tname := 1; lits := [1]; globs := [] |}.
 Definition all_ok : name -> beh := fun _ => BSucc.
